@@ -27,7 +27,7 @@ type dcase struct {
 	Clients  int    `json:"clients"`
 	MultiIP  bool   `json:"multi_ip"` // same port on 127.0.0.1/.2/.3
 	Backlog  int    `json:"backlog"`
-	Filter   string `json:"filter"` // none | even (first byte even admitted)
+	Filter   string `json:"filter"` // none | even (first byte even admitted) | skipfirst | firstonly
 	Batch    int    `json:"batch"`  // 0 off, else ReadBatchSize
 	Paced    bool   `json:"paced"`
 	PerCli   int    `json:"datagrams_per_client"`
@@ -133,7 +133,10 @@ func libraryQuiet(liveHandlers int) bool {
 
 func runCase(c *dcase, r *res.Result) (string, string) {
 	lc := udp.ListenConfig{Backlog: c.Backlog}
-	if c.Filter == "even" || c.Filter == "skipfirst" {
+	if c.Filter == "even" || c.Filter == "skipfirst" || c.Filter == "firstonly" {
+		// "firstonly": the filter admits even first bytes; every remote's first datagram is even, a third of its later ones
+		// are odd. The filter decides about NEW remotes only: datagrams of a remote that has a connection are delivered
+		// to it whatever the filter would say
 		// "skipfirst": every remote's datagram with seq 1 carries an odd first byte and is refused, later ones are admitted
 		lc.AcceptFilter = func(b []byte) bool { return len(b) > 0 && b[0]%2 == 0 }
 	}
@@ -475,7 +478,7 @@ func runCase(c *dcase, r *res.Result) (string, string) {
 					}
 				}
 				cl.sent++
-				cl.conn.Write(mk(cl.idx, cl.sent, size, cl.odd || c.Filter == "skipfirst" && cl.sent == 1))
+				cl.conn.Write(mk(cl.idx, cl.sent, size, cl.odd || c.Filter == "skipfirst" && cl.sent == 1 || c.Filter == "firstonly" && !c.Reconn && cl.sent > 1 && lr.Intn(3) == 0))
 				r.Count("datagrams_sent", 1)
 			}
 		}()
@@ -560,7 +563,7 @@ func genCase(rng *rand.Rand) *dcase {
 	c.Clients = 2 + rng.Intn(23)
 	c.MultiIP = rng.Intn(3) == 0
 	c.Backlog = []int{1, 2, 128, 128}[rng.Intn(4)]
-	c.Filter = []string{"none", "none", "even", "skipfirst"}[rng.Intn(4)]
+	c.Filter = []string{"none", "none", "even", "skipfirst", "firstonly"}[rng.Intn(5)]
 	c.Batch = []int{0, 0, 2, 8}[rng.Intn(4)]
 	c.Paced = rng.Intn(3) > 0
 	c.PerCli = 5 + rng.Intn(60)
